@@ -57,6 +57,14 @@ func checkC14(c c14Case) (Outcome, error) {
 	}
 	w := workflows[c.Workflow]
 	what := fmt.Sprintf("%s on a source repeating the %d-byte tile %s", c.Workflow, len(tile), c.Tile)
+	if c.Prior > 0 && w.SampleBytes <= 2500 {
+		// history: an earlier parallel detection in this process ended on a read error (a source that ran dry)
+		out.Classes = append(out.Classes, "after-a-failed-call")
+		pr := callWatched(func() (bool, error) { return w.Fast(gen.NewReader(make([]byte, c.Prior))) }, time.Minute)
+		if pr.Hung {
+			return out, violation("hang", "%s: the preparatory call on a %d-byte source never returned", what, c.Prior)
+		}
+	}
 	res := callWatched(func() (bool, error) { return w.Seq(mk()) }, 60*time.Minute)
 	switch {
 	case res.Panic != nil:
@@ -181,6 +189,9 @@ func genC14(t *rapid.T) c14Case {
 		return c
 	}
 	c.TileKind, c.Tile = drawTile(t)
+	if c.Workflow == "period" && rapid.IntRange(0, 3).Draw(t, "history") == 0 {
+		c.Prior = rapid.SampledFrom([]int{1, 2499, 2500, 30000}).Draw(t, "prior_bytes")
+	}
 	return c
 }
 
